@@ -302,6 +302,7 @@ scen_lazy(const sim::Plan& p, int threads, const sc::Params& sp)
   struct Item
   {
     int d1, r1, d2, r2, k;
+    int mode, seg0, a0, v0, t0;
   };
   std::vector<Item> items;
   for (int i = 0; i < n; ++i)
@@ -312,6 +313,11 @@ scen_lazy(const sim::Plan& p, int threads, const sc::Params& sp)
       it.r1 = (int)r.below(nrings);
       it.r2 = (int)r.below(nrings);
       it.k = (int)r.range(pdi->get_min_tof_pos_num(), pdi->get_max_tof_pos_num());
+      it.mode = (int)r.below(2);
+      it.seg0 = (int)r.range(pdi->get_min_segment_num(), pdi->get_max_segment_num());
+      it.a0 = (int)r.range(pdi->get_min_axial_pos_num(it.seg0), pdi->get_max_axial_pos_num(it.seg0));
+      it.v0 = (int)r.range(pdi->get_min_view_num(), pdi->get_max_view_num());
+      it.t0 = (int)r.range(pdi->get_min_tangential_pos_num(), pdi->get_max_tangential_pos_num());
       items.push_back(it);
     }
   sc::configure(sp);
@@ -329,6 +335,21 @@ scen_lazy(const sim::Plan& p, int threads, const sc::Params& sp)
       };
       DetectionPositionPair<> dp(DetectionPosition<>(it.d1, it.r1, 0), DetectionPosition<>(it.d2, it.r2, 0), it.k);
       Bin b;
+      if (it.mode)
+        {
+          // start from a bin: the first use of this object may be the (view, tang) -> detector table, the other lazy
+          // table comes second (both orders of first use must work)
+          Bin b0(it.seg0, it.v0, it.a0, it.t0, it.k);
+          DetectionPositionPair<> p0;
+          pc.get_det_pos_pair_for_bin(p0, b0);
+          add(p0.pos1().tangential_coord());
+          add(p0.pos1().axial_coord());
+          add(p0.pos2().tangential_coord());
+          add(p0.pos2().axial_coord());
+          Bin b1;
+          if (pc.get_bin_for_det_pos_pair(b1, p0) != Succeeded::yes || !(b1 == b0))
+            add(0xBAD0);
+        }
       // pair -> bin (first use builds det1det2 -> (view, tang) table and the ring-difference tables)
       if (pc.get_bin_for_det_pos_pair(b, dp) == Succeeded::yes)
         {
